@@ -22,6 +22,8 @@ def row_params(an):
             P[(e["tbl"], l)] = {"plift": 0.8 + 0.3 * l, "p": 5.0 + 0.5 * l}
         elif e["tbl"] == "pipe":
             P[(e["tbl"], l)] = {"length_km": 0.1 + 0.07 * l}
+            if l % 2 == 1:
+                P[(e["tbl"], l)]["do_mm"] = 100.0      # every second pipe is thick-walled (a property of the row, whatever label it carries)
     for n in an["N"]:
         l = n["lab"]
         if n["tbl"] == "ext_grid":
